@@ -475,10 +475,8 @@ impl Prop for C02 {
             f.u64(data.len() as u64);
             f.finish()
         };
-        let outcome_class;
         match &phase1 {
             Err(p) => {
-                outcome_class = "panic".to_string();
                 if p.starts_with("executor invariant") {
                     rep.violate("executor-invariant", p.clone());
                 } else {
@@ -486,7 +484,7 @@ impl Prop for C02 {
                 }
             }
             Ok((o, steps)) => {
-                outcome_class = o.class().split('(').next().unwrap_or("?").to_string();
+                let outcome_class = o.class().split('(').next().unwrap_or("?").to_string();
                 rep.count(&format!("outcome.{outcome_class}"), 1);
                 rep.count("exercise_steps", *steps);
             }
